@@ -552,10 +552,6 @@ func gQuote(c *Ctx, rule string) {
 				if !ok || e.Lit {
 					continue
 				}
-				// an emission of a helper (not written in gf itself) that is the sink statement
-				if gf.Decl.Pos() <= e.Pos && e.Pos <= gf.Decl.End() {
-					continue
-				}
 				isSink := false
 				for _, p := range e.Parts {
 					if p.Kind == PConst && strings.Contains(p.Const, n.Buf+".WriteString(") {
